@@ -220,7 +220,7 @@ def run(ctx):
     ctx.oblige("correspondence:rank (LP-level re-execution of every rank of %d multi-rank runs, %d trace lines; remote sends, remote and "
                "early anti-messages, free-at-GVT)" % (ragg["runs"], ragg["lines"]), not rdivs,
                json.dumps({"cfg": rdivs[0]["cfg"], "div": rdivs[0]["div"]}) if rdivs else "")
-    for k in ("s_rb_mismatch", "s_below_gvt", "s_gvt_decrease", "s_double_free", "s_vote_false_pred"):
+    for k in ("s_rb_mismatch", "s_below_gvt", "s_gvt_decrease", "s_double_free", "s_vote_false_pred", "s_vote_uncommitted"):
         if ragg["tot"].get(k, 0):
             ctx.violation("oracle:" + k, {"count": ragg["tot"][k], "mode": "rank"}, True)
     ctx.coverage["rank_mode"] = {"runs": ragg["runs"], "trace_lines_compared": ragg["lines"], "outcomes": ragg["outcomes"],
